@@ -555,4 +555,33 @@ def apply(backend, a):
     r = getattr(backend.servicer, k if not k.startswith('CreateStudy') else 'CreateStudy')(req)
   except Exception as e:  # pylint: disable=broad-except
     return err_class(e), None, e
-  return 'OK', response_view(k, r), r
+  view = response_view(k, r)
+  _scribble(r)
+  _scribble(req)
+  return 'OK', view, r
+
+
+def _scribble(msg):
+  """Pass-by-value check: overwrite a returned (or passed) message in place. If the datastore handed out or kept
+  a reference to its own copy, the stored state changes and the next canonical-state comparison shows it."""
+  try:
+    for t in list(getattr(msg, 'trials', [])) + list(getattr(msg, 'optimal_trials', [])) + list(getattr(msg, 'studies', [])):
+      _scribble(t)
+    if isinstance(msg, study_pb2.Trial):
+      msg.state = study_pb2.Trial.State.INFEASIBLE
+      msg.client_id = 'scribbled'
+      msg.measurements.add().step_count = 99
+      del msg.parameters[:]
+    elif isinstance(msg, study_pb2.Study):
+      msg.display_name = 'scribbled'
+      msg.state = study_pb2.Study.State.COMPLETED
+      msg.study_spec.metadata.add(key='scribbled', value='x')
+    elif hasattr(msg, 'trial') and isinstance(getattr(msg, 'trial', None), study_pb2.Trial):
+      _scribble(msg.trial)
+    elif hasattr(msg, 'study') and isinstance(getattr(msg, 'study', None), study_pb2.Study):
+      _scribble(msg.study)
+    elif isinstance(msg, operations_pb2.Operation):
+      msg.done = False
+      msg.ClearField('response')
+  except Exception:  # pylint: disable=broad-except
+    pass
